@@ -96,6 +96,9 @@ func (x *apiExec) fresh() {
 }
 
 func (x *apiExec) Reset() {
+	if apiHangs >= 3 {
+		return
+	}
 	if x.poisoned {
 		// the panicking goroutine may still hold a wallet database transaction: do not touch that
 		// environment again (closing it could block), start a new one
@@ -589,8 +592,10 @@ func (x *apiExec) call(m string, a []string) string {
 
 // Exec runs one op under a watchdog: an op that does not return within apiOpTimeout is reported as
 // HANG (the follower or a handler blocked for good) and the environment is abandoned.
+var apiHangs int // ops that did not return; after three the run is pointless (every history would block)
+
 func (x *apiExec) Exec(a []string) string {
-	if x.poisoned {
+	if x.poisoned || apiHangs >= 3 {
 		return "poisoned"
 	}
 	x.env()
@@ -607,6 +612,7 @@ func (x *apiExec) Exec(a []string) string {
 	case out = <-ch:
 	case <-time.After(apiOpTimeout):
 		out = "HANG"
+		apiHangs++
 	}
 	if out == "HANG" || strings.HasPrefix(out, "PANIC") {
 		x.poisoned = true
